@@ -107,20 +107,50 @@ Proof.
   destruct H as [He H]. auto.
 Qed.
 
-Section WithTables.
-Variable markers : list N.
-Variable names : list str.
-Variable max_size : nat.
+Lemma a_is_nl_true a : a_is_nl a = true -> a = ET 10%N.
+Proof. destruct a as [c|e]; cbn [a_is_nl]; [|discriminate]. unfold is_nl. intros H. apply N.eqb_eq in H. now subst. Qed.
+
+Fixpoint join_textA (ls : list (list atom)) : list atom :=
+  match ls with
+  | [] => []
+  | [l] => l
+  | l :: rest => l ++ ET 10%N :: join_textA rest
+  end.
+
+Lemma linesA_nonempty s : linesA s <> [].
+Proof. destruct s as [|c t]; cbn [linesA]; [discriminate|]. destruct (a_is_nl c); [discriminate|]. destruct (linesA t); discriminate. Qed.
+
+Lemma join_linesA_text s : join_textA (linesA s) = s.
+Proof.
+  induction s as [|c t IH]; [reflexivity|]. cbn [linesA].
+  destruct (a_is_nl c) eqn:Hc.
+  - rewrite (a_is_nl_true _ Hc). pose proof (linesA_nonempty t) as Hn.
+    destruct (linesA t) as [|l ls]; [contradiction|].
+    change (join_textA ([] :: l :: ls)) with ([] ++ ET 10%N :: join_textA (l :: ls)). now rewrite IH.
+  - destruct (linesA t) as [|l ls] eqn:Hl; [exfalso; now apply (linesA_nonempty t)|].
+    destruct ls as [|l2 ls]; cbn [join_textA app] in *; now rewrite IH.
+Qed.
+
+Lemma linesA_ok s : epieces_ok s -> Forall epieces_ok (linesA s).
+Proof.
+  induction s as [|c t IH]; intros H; [repeat constructor|]. cbn [linesA].
+  assert (Ht : epieces_ok t) by (destruct c; cbn [epieces_ok] in H; tauto).
+  specialize (IH Ht). destruct (a_is_nl c).
+  - constructor; [exact I|exact IH].
+  - destruct (linesA t) as [|l ls]; [repeat constructor; destruct c; cbn [epieces_ok] in *; tauto|].
+    inversion IH as [|? ? Hl Hls]. constructor; [|exact Hls].
+    destruct c; cbn [epieces_ok] in *; tauto.
+Qed.
+
+Section WithDepth.
 Variable md : nat.
 
-Notation tok_lineA := (tok_lineA markers names max_size md).
-Notation join_linesA := (join_linesA markers names max_size md).
+Notation tok_lineA := (tok_lineA md).
+Notation join_linesA := (join_linesA md).
 
-Lemma tok_lineA_spec line : itext (tok_lineA line) = line /\ items_ok (tok_lineA line).
+Lemma tok_lineA_spec atoms : epieces_ok atoms -> itext (tok_lineA atoms) = etext atoms /\ items_ok (tok_lineA atoms).
 Proof.
-  unfold MixFrag.tok_lineA.
-  destruct (scan_spec markers names max_size line 0 (Nat.le_0_l _)) as [Et Ok]. cbn [skipn] in Et.
-  set (atoms := scan markers names max_size 0 line) in *.
+  intros Ok. unfold MixFrag.tok_lineA.
   destruct (span_eqA atoms) as [a r] eqn:Hs. pose proof (span_eqA_spec _ _ _ Hs) as Hl.
   destruct a as [|a']; [split; [now rewrite itext_map_IT|now apply items_ok_map_IT]|].
   destruct (segsA r) as [ss tl] eqn:Hg. pose proof (unsegsA_segsA _ _ _ Hg) as Hr.
@@ -131,21 +161,39 @@ Proof.
   assert (Hat : atoms = eqsA l ++ (eqsA (S a' - l) ++ title) ++ eqsA l ++ unsegsA rest tl).
   { rewrite Hl, <- Hr, E, Hsp. now repeat rewrite <- app_assoc. }
   split.
-  - cbn [itext]. rewrite itext_map_IT. rewrite <- Et, Hat.
+  - cbn [itext]. rewrite itext_map_IT. rewrite Hat.
     repeat rewrite etext_app. repeat rewrite etext_eqsA. now repeat rewrite <- app_assoc.
   - rewrite Hat in Ok. repeat (apply epieces_ok_app in Ok; destruct Ok as [? Ok]).
     cbn [items_ok]. split; [assumption|now apply items_ok_map_IT].
 Qed.
 
-Lemma join_linesA_spec ls : itext (join_linesA ls) = join_text ls /\ items_ok (join_linesA ls).
+Lemma join_linesA_spec ls : Forall epieces_ok ls ->
+  itext (join_linesA ls) = etext (join_textA ls) /\ items_ok (join_linesA ls).
 Proof.
-  induction ls as [|l rest IH]; [split; [reflexivity|exact I]|].
-  destruct rest as [|l2 rest]; [cbn [MixFrag.join_linesA join_text]; apply tok_lineA_spec|].
+  induction ls as [|l rest IH]; intros Hf; [split; [reflexivity|exact I]|].
+  inversion Hf as [|? ? Hl Hrest]. subst.
+  destruct rest as [|l2 rest]; [cbn [MixFrag.join_linesA join_textA]; now apply tok_lineA_spec|].
   change (join_linesA (l :: l2 :: rest)) with (tok_lineA l ++ IT (ET 10%N) :: join_linesA (l2 :: rest)).
-  change (join_text (l :: l2 :: rest)) with (l ++ 10%N :: join_text (l2 :: rest)).
-  destruct IH as [IHt IHo]. destruct (tok_lineA_spec l) as [Ht Ho]. split.
-  - rewrite itext_app, Ht. cbn [itext]. now rewrite IHt.
+  change (join_textA (l :: l2 :: rest)) with (l ++ ET 10%N :: join_textA (l2 :: rest)).
+  destruct (IH Hrest) as [IHt IHo]. destruct (tok_lineA_spec l Hl) as [Ht Ho]. split.
+  - rewrite itext_app, Ht, etext_app. cbn [itext etext]. now rewrite IHt.
   - apply items_ok_app; [assumption|]. cbn [items_ok epieces_ok]. auto.
+Qed.
+End WithDepth.
+
+Section WithTables.
+Variable markers : list N.
+Variable names : list str.
+Variable max_size : nat.
+Variable md : nat.
+
+Lemma mfrag_items s :
+  itext (join_linesA md (linesA (scan markers names max_size 0 s))) = s /\
+  items_ok (join_linesA md (linesA (scan markers names max_size 0 s))).
+Proof.
+  destruct (scan_spec markers names max_size s 0 (Nat.le_0_l _)) as [Et Ok]. cbn [skipn] in Et.
+  destruct (join_linesA_spec md _ (linesA_ok _ Ok)) as [Ht Ho]. split; [|exact Ho].
+  now rewrite Ht, join_linesA_text.
 Qed.
 
 Lemma str_mmerge is : forall acc, str_code (mmerge acc is) = acc ++ itext is.
@@ -162,8 +210,7 @@ Qed.
 
 Theorem mfrag_lossless s : str_code (mfrag_nodes markers names max_size md s) = s.
 Proof.
-  unfold mfrag_nodes. rewrite str_mmerge. cbn [app].
-  rewrite (proj1 (join_linesA_spec (lines s))). apply join_lines_text.
+  unfold mfrag_nodes. rewrite str_mmerge. cbn [app]. exact (proj1 (mfrag_items s)).
 Qed.
 
 Lemma wf_mmerge is : items_ok is -> forall acc, wf_code (mmerge acc is).
@@ -177,7 +224,7 @@ Proof.
 Qed.
 
 Theorem mfrag_wf s : wf_code (mfrag_nodes markers names max_size md s).
-Proof. apply wf_mmerge. exact (proj2 (join_linesA_spec (lines s))). Qed.
+Proof. apply wf_mmerge. exact (proj2 (mfrag_items s)). Qed.
 
 Theorem mfrag_end_to_end s :
   exists c, build (mfrag_tokens markers names max_size md s) = Ok c /\ str_code c = s.
@@ -217,48 +264,13 @@ Qed.
 
 Theorem mfrag_canonical s : canon_code (mfrag_nodes markers names max_size md s) = true.
 Proof.
-  pose proof (proj2 (join_linesA_spec (lines s))) as Hp.
+  pose proof (proj2 (mfrag_items s)) as Hp.
   unfold canon_code, mfrag_nodes. now rewrite canon_list_mmerge, canon_each_mmerge.
 Qed.
 End WithTables.
 
 (* the combined model depends on the marker table only through the marker test on the characters of its input *)
-Lemma lines_In s : forall l c, In l (lines s) -> In c l -> In c s.
-Proof.
-  induction s as [|x t IH]; intros l c Hl Hc.
-  - cbn [lines] in Hl. destruct Hl as [<-|[]]. destruct Hc.
-  - cbn [lines] in Hl. destruct (is_nl x).
-    + destruct Hl as [<-|Hl]; [destruct Hc|]. right. now apply (IH l).
-    + destruct (lines t) as [|l0 ls] eqn:E.
-      * destruct Hl as [<-|[]]. destruct Hc as [<-|[]]. now left.
-      * destruct Hl as [<-|Hl].
-        -- destruct Hc as [<-|Hc]; [now left|]. right. apply (IH l0); [now left|assumption].
-        -- right. apply (IH l); [now right|assumption].
-Qed.
-
-Section Ext.
-Variables (m1 m2 : list N) (names : list str) (max_size md : nat).
-
-Lemma join_linesA_ext ls : (forall l c, In l ls -> In c l -> is_marker m1 c = is_marker m2 c) ->
-  join_linesA m1 names max_size md ls = join_linesA m2 names max_size md ls.
-Proof.
-  induction ls as [|l rest IH]; intros H; [reflexivity|].
-  assert (Hl : tok_lineA m1 names max_size md l = tok_lineA m2 names max_size md l).
-  { unfold tok_lineA. rewrite (scan_ext m1 m2 names max_size l); [reflexivity|]. intros c Hc. apply (H l); [now left|assumption]. }
-  assert (Hr : join_linesA m1 names max_size md rest = join_linesA m2 names max_size md rest).
-  { apply IH. intros l' c Hl' Hc. apply (H l'); [now right|assumption]. }
-  destruct rest as [|l2 rest]; [exact Hl|].
-  change (join_linesA m1 names max_size md (l :: l2 :: rest))
-    with (tok_lineA m1 names max_size md l ++ IT (ET 10%N) :: join_linesA m1 names max_size md (l2 :: rest)).
-  change (join_linesA m2 names max_size md (l :: l2 :: rest))
-    with (tok_lineA m2 names max_size md l ++ IT (ET 10%N) :: join_linesA m2 names max_size md (l2 :: rest)).
-  now rewrite Hl, Hr.
-Qed.
-
-Theorem mfrag_tokens_ext s : (forall c, In c s -> is_marker m1 c = is_marker m2 c) ->
+Theorem mfrag_tokens_ext (m1 m2 : list N) (names : list str) (max_size md : nat) s :
+  (forall c, In c s -> is_marker m1 c = is_marker m2 c) ->
   mfrag_tokens m1 names max_size md s = mfrag_tokens m2 names max_size md s.
-Proof.
-  intros H. unfold mfrag_tokens, mfrag_nodes. rewrite (join_linesA_ext (lines s)); [reflexivity|].
-  intros l c Hl Hc. apply H. now apply (lines_In s l c).
-Qed.
-End Ext.
+Proof. intros H. unfold mfrag_tokens, mfrag_nodes. now rewrite (scan_ext m1 m2 names max_size s H). Qed.
